@@ -86,7 +86,9 @@ def cases(tier):
             for target in (None, "sympy", "casadi"):
                 out.append((files, 0, False, models, target, []))
     for missing, bad_out, opts in [(1, False, []), (2, True, []), (0, True, []), (0, False, ["x"]), (0, False, ["a=b=c", "k=true"]),
-                                   (1, True, ["novalue"])]:
+                                   (1, True, ["novalue"]),
+                                   # one NAME given twice, the malformed argument before or after the well-formed one
+                                   (0, False, ["cache", "cache=True"]), (0, False, ["cache=False", "cache"]), (1, False, ["eggs", "eggs=a=b"])]:
         for models, target in [([], None), (["Good"], None), (["Good"], "sympy"), (["Good"], "casadi")]:
             out.append((["Good"], missing, bad_out, models, target, opts))
     if tier != "quick":
